@@ -555,3 +555,117 @@ def afd_gen(rng, tier):
     for p in ("x", "y"):
         for dims in ({}, {"x": 1}, {"x": 2}, {"x": 3, "y": 1}, {"x": 0}, {"y": 4}):
             yield {"p": p, "dims": dims, "axis": "k"}
+
+
+# ---- pipefunc/map/_prepare.py::_reduced_axes (C06: the axes that may not be fixed) --------------------------------------------
+from pyvc.types import TSet as _TSet3  # noqa: E402
+
+SetS = _TSet3(TStr)
+DRed = TDict(TStr, SetS)
+DRed.default = "set"  # (the accumulator is a defaultdict(set))
+PipelineRAV = _TRec2("PipelineRAV", {"mapspec_axes": DAxes, "mapspec_names": SetS, "functions": TSeq(PipeFuncParamsView)})
+
+
+def _ra_red(S, f, name):
+    if S.symbolic:
+        return S.uf("fn:_is_parameter_reduced_by_function", TBool, f, name)
+    from pipefunc.map._prepare import _is_parameter_reduced_by_function as g
+    return g(f, name)
+
+
+def _ra_part(S, f, name):
+    if S.symbolic:
+        return S.uf("fn:_is_parameter_partially_reduced_by_function", TBool, f, name)
+    from pipefunc.map._prepare import _is_parameter_partially_reduced_by_function as g
+    return g(f, name)
+
+
+def _ra_paxes(S, f, name, axes):
+    if S.symbolic:
+        return S.uf("fn:_get_partially_reduced_axes", SS, f, name, axes)
+    from pipefunc.map._prepare import _get_partially_reduced_axes as g
+    return g(f, name, axes)
+
+
+def _ra_touches(S, a, i, name):
+    f = a.pipeline.functions[i]
+    return S.or_(_ra_red(S, f, name), lambda: _ra_part(S, f, name))
+
+
+def _ra_contrib(S, a, i, name, ax):
+    """Function i contributes axis `ax` of the array `name`: every named axis if it takes the array whole, the axes at
+    its ':' positions if it takes it partially."""
+    f = a.pipeline.functions[i]
+    axes = a.pipeline.mapspec_axes
+    return S.ite(_ra_red(S, f, name),
+                 lambda: S.and_(S.has(axes, name), lambda: S.contains(axes[name], ax)),
+                 lambda: S.and_(_ra_part(S, f, name), lambda: S.contains(_ra_paxes(S, f, name, axes), ax)))
+
+
+def _ra_settled(S, a, R, name, upto):
+    """The entry of `name` is what the first `upto` functions contribute."""
+    return S.and_(
+        S.has(R, name) == S.exists(0, upto, lambda i: _ra_touches(S, a, i, name)),
+        lambda: S.implies(S.has(R, name), lambda: S.forall_key(TStr, lambda ax: S.in_set(R[name], ax) == S.exists(
+            0, upto, lambda i: _ra_contrib(S, a, i, name, ax)), domain=() if S.symbolic else _ra_all_axes(a))))
+
+
+def _ra_all_axes(a):
+    out = set()
+    for v in a.pipeline.mapspec_axes.values():
+        out |= set(v)
+    return sorted(out) + ["zz"]
+
+
+def _ra_ensures(S, a, r, post):
+    n = S.len(a.pipeline.functions)
+    names = a.pipeline.mapspec_names
+    dom = () if S.symbolic else sorted(set(r) | set(names) | {"zz"})
+    return {
+        "only arrays of the pipeline's MapSpecs have an entry": S.forall_key(TStr, lambda nm: S.implies(
+            S.has(r, nm), lambda: S.in_set(names, nm)), domain=dom),
+        "an array has an entry iff some function takes it whole or partially, and the entry holds exactly the axes those "
+        "functions reduce": S.forall_key(TStr, lambda nm: S.implies(S.in_set(names, nm), lambda: _ra_settled(S, a, r, nm, n)),
+                                         domain=dom),
+    }
+
+
+def _ra_outer(S, a, v, k):
+    R = v.reduced_axes
+    n = S.len(a.pipeline.functions)
+    return {
+        "processed names are settled": S.forall(0, k, lambda i: _ra_settled(S, a, R, v._okey(i), n)),
+        "only processed names have an entry": S.forall_key(TStr, lambda nm: S.implies(S.has(R, nm), lambda: S.exists(
+            0, k, lambda i: S.eq(v._okey(i), nm)))),
+    }
+
+
+def _ra_inner(S, a, v, j):
+    R, R_in, nm = v.reduced_axes, v._entry.reduced_axes, v.name
+    return {
+        "the current name: what the first j functions contribute": _ra_settled(S, a, R, nm, j),
+        "other entries as before": S.forall_key(TStr, lambda other: S.implies(S.not_(S.eq(other, nm)), lambda: S.and_(
+            S.has(R, other) == S.has(R_in, other), lambda: S.implies(S.has(R_in, other), lambda: S.eq(R[other], R_in[other]))))),
+    }
+
+
+reduced_axes = Contract(
+    "pipefunc/map/_prepare.py::_reduced_axes", params={"pipeline": PipelineRAV}, returns=TDict(TStr, SetS),
+    ensures=_ra_ensures, loops={0: LoopSpec(_ra_outer), 1: LoopSpec(_ra_inner)},
+    locals_={"reduced_axes": DRed},
+)
+REDUCED = [is_parameter_reduced, is_parameter_partially_reduced, get_partially_reduced_axes, reduced_axes]
+
+
+def ra_gen(rng, tier):
+    from types import SimpleNamespace
+    from pipefunc.map._mapspec import MapSpec
+    specs = [None, "x[i] -> y[i]", "x[i], z[j] -> y[i, j]", "x[i, :] -> y[i]", "x[:, j], z[j] -> y[j]", "z[i], x[i, :] -> y[i]",
+             "... -> y[i]", "x[:, :] , z[i] -> y[i]"]
+    for _ in range(300 if tier == "quick" else 3000):
+        fs = [SimpleNamespace(parameters=tuple(rng.sample(["x", "z", "w"], rng.randint(0, 3))),
+                              mapspec=(lambda s: MapSpec.from_string(s) if s else None)(rng.choice(specs)))
+              for _ in range(rng.randint(0, 3))]
+        axes = rng.choice(({}, {"x": ("a", "b")}, {"x": ("a", "b"), "z": ("i",)}, {"z": ("q",)}, {"x": ("a", "b"), "w": ("c",)}))
+        names = set(rng.sample(["x", "z", "w", "y"], rng.randint(0, 4)))
+        yield {"pipeline": SimpleNamespace(mapspec_axes=axes, mapspec_names=names, functions=fs)}
